@@ -15,7 +15,8 @@ EXPLANATION = (
     "not-found arm, looks up again. (3) Lookup before create: the creator call is dominated by the None arm of the "
     "first lookup. (4) Handles share state: FileDbMap and FileDb are single-field newtypes over Rc<RefCell<..>> with "
     "derived Clone, getters hand out clones of the registered handle, and the inner map state is constructed only via "
-    "FileDbMap::open, which is called only by the creators.")
+    "FileDbMap::open, which is called only by the creators. (5) Registries only grow: every BTreeMap method the lib calls "
+    "on a registry is a non-removing one, so a handed-out handle is never orphaned.")
 NOT_DECIDED = ("absence of cross-talk through shared buffers or the OS; byte-for-byte stability of untouched maps' files; "
                "what happens when two *processes* open the same directory.")
 ASSUMPTIONS = ["the five map handle types are distinct types (enforced by the compiler; asserted from the ADT facts)"]
@@ -201,6 +202,40 @@ def check(ctx):
                 nm = leaf_origins(prog, t, tt["args"][1], at=bb, terminal_only=True)
                 ok = bool(nm) and all(y.kind == "param" and y.data == 2 for y in nm)
             ctx.check(ok, "registry-column", t.name + ":forwards", "%s does not forward its name to %s_with_params" % (t.name, t.name), where=where(t))
+
+    # ---------------------------------------------------------------- (2b) registries only grow
+    # A registered handle must stay registered for the life of the database handle: if an entry could be removed or
+    # replaced while a caller still holds the old handle, a later lookup would open the same files a second time.
+    NON_REMOVING = {"new", "get", "insert", "keys", "values", "iter", "contains_key", "len", "is_empty", "get_key_value",
+                    "first_key_value", "last_key_value", "range"}
+    reg_calls = 0
+    for fn in prog.fns.values():
+        if fn.crate != "abyssiniandb":
+            continue
+        for b, t in fn.calls():
+            cal = t.get("callee") or ""
+            ga = t.get("gargs") or []
+            on_registry = any("FileDbMap<" in g for g in ga[1:2]) and "btree::map::BTreeMap" in cal and ga and ga[0].endswith("String")
+            via_mem = cal.startswith("core::mem::") and any(g.startswith("alloc::collections::btree::map::BTreeMap<") and "FileDbMap<" in g for g in ga)
+            if on_registry:
+                reg_calls += 1
+                meth = cal.rsplit("::", 1)[1]
+                ctx.check(meth in NON_REMOVING, "registry-grow-only", "%s:%s" % (fn.name, meth),
+                          "%s calls BTreeMap::%s on a map registry: a registered handle can be dropped from the registry while callers still hold it, and the next lookup opens the files a second time" % (short(fn.id), meth),
+                          where=where(fn, b))
+            if via_mem:
+                reg_calls += 1
+                ctx.check(False, "registry-grow-only", "%s:%s" % (fn.name, cal.rsplit("::", 1)[1]),
+                          "%s moves a whole map registry with %s" % (short(fn.id), cal), where=where(fn, b))
+        # whole-registry overwrite outside the constructor
+        for col in [f["name"] for f in regs]:
+            for bb, blk in enumerate(fn.blocks):
+                for st in blk["stmts"]:
+                    if st["s"] == "assign" and st["lhs"]["p"] and st["lhs"]["p"][-1] == "f:" + FILEDBINNER + "." + col:
+                        ctx.check(False, "registry-grow-only", "%s:assign:%s" % (fn.name, col),
+                                  "%s replaces the registry %s" % (short(fn.id), col), where=where(fn, bb))
+    ctx.floor("registry-grow-only", "BTreeMap calls on map registries", reg_calls, 20)
+    ctx.ok("registry-grow-only", "all-sites", "every BTreeMap call on a registry is one of %s" % sorted(NON_REMOVING))
 
     # ---------------------------------------------------------------- (4) shared state
     for adt_id in (fp.FILEDBMAP, FILEDB):
